@@ -68,6 +68,15 @@ func tagOf(ctx context.Context) string {
 type InjErr struct {
 	Path string
 	Idx  int
+	EOF  bool // the error wraps io.EOF
+}
+
+// Unwrap: an error that wraps io.EOF is an error all the same.
+func (e *InjErr) Unwrap() error {
+	if e.EOF {
+		return io.EOF
+	}
+	return nil
 }
 
 func (e *InjErr) Error() string { return fmt.Sprintf("INJECTED<%s#%d>", e.Path, e.Idx) }
@@ -358,7 +367,7 @@ func (b *builder) body(ctx context.Context, p *Plan, n *Node, full string, in M,
 			panic(fmt.Sprintf("PANIC<%s#%d>", full, done))
 		default:
 			e.Faults["node_error"]++
-			return nil, &InjErr{Path: full, Idx: done}
+			return nil, &InjErr{Path: full, Idx: done, EOF: n.FailEOF && n.FailKind == 2}
 		}
 	}
 	e.doneCount[ck] = done + 1
